@@ -47,7 +47,7 @@ def build_case(data, mode):
 
 def _shard(ctx, shard, nshards):
     native.setup()
-    for mode, n_examples, size in (('table', ctx.scale(800, 5000), 700), ('real', ctx.scale(60, 400), 700)):
+    for mode, n_examples, size in (('table', ctx.scale(800, 15000), 700), ('real', ctx.scale(60, 1200), 700)):
         def factory(mode=mode, n_examples=n_examples, size=size):
             @seed(runner.hseed(ctx, 12 if mode == 'table' else 112))
             @runner.hsettings(n_examples)
